@@ -517,6 +517,160 @@ pub fn open_loop(run: &mut Run, cfg: &SCfg, t0: u64, iters: usize, plan: &mut dy
     crate::strategy::set_addr_num(false);
 }
 
+
+// ------------------------------------------------------------------------------------------------
+// closed loop: the real `Tracer::verif_run_with` runs on its own
+// ------------------------------------------------------------------------------------------------
+
+fn split_calls(ops: &[String]) -> Vec<Vec<String>> {
+    let mut calls: Vec<Vec<String>> = vec![];
+    for o in ops {
+        if o.starts_with("takeerr:") { continue; }
+        if o.starts_with("new:") || calls.is_empty() {
+            calls.push(vec![]);
+        }
+        calls.last_mut().unwrap().push(o.clone());
+    }
+    calls
+}
+
+fn show_calls(ops: &[String]) -> String {
+    let c = split_calls(ops);
+    if c.is_empty() { "-".into() } else { c.iter().map(|x| x.join(";")).collect::<Vec<_>>().join("|") }
+}
+
+struct Loop {
+    /// per finished `is_readable` call: (socket calls since the previous one, error armed during them, dt)
+    iters: Vec<(Vec<String>, Option<(&'static str, Inject)>, u64)>,
+    armed: Option<(&'static str, Inject)>,
+    timed_out: bool,
+}
+
+/// run one case closed loop: no responses, the clock advances by `dts` (cyclically) in every wait, a
+/// socket error is armed from iteration `fault.0` on until a send consumes it
+pub fn closed_loop(run: &mut Run, cfg: &SCfg, t0: u64, dts: &[u64], fault: Option<(usize, &'static str, Inject)>) {
+    crate::strategy::set_addr_num(true);
+    let ctx = cfg.new_line(t0);
+    run.count("stack:closed-case");
+    clock::enable(t0);
+    simsock::reset();
+    simsock::set_default_writable(Poll::No);
+    let tracer = match guarded(|| cfg.build()) {
+        Ok(Ok(t)) => t,
+        _ => {
+            run.fail("c16-stack-builder-rejects", ctx);
+            clock::disable();
+            return;
+        }
+    };
+    let n_rounds = cfg.max_rounds.unwrap_or(1) as u64;
+    let max_dt = dts.iter().copied().max().unwrap_or(0);
+    let budget = t0 + (n_rounds + 1) * (cfg.max_round + max_dt + 1) + max_dt;
+    let state = Rc::new(RefCell::new(Loop { iters: vec![], armed: None, timed_out: false }));
+    let st2 = state.clone();
+    let dts_v = dts.to_vec();
+    simsock::set_readable_hook(Some(Box::new(move |n: u64| {
+        let mut l = st2.borrow_mut();
+        let ops = simsock::take_ops();
+        let dt = dts_v[(n as usize - 1) % dts_v.len()];
+        let armed_during = l.armed;
+        l.iters.push((ops, armed_during, dt));
+        // was the armed error consumed by this iteration's sends?
+        if l.armed.is_some() && !simsock::armed() {
+            l.armed = None;
+        }
+        if let Some((k, call, e)) = fault {
+            if n as usize == k {
+                simsock::arm(call, e);
+                l.armed = Some((call, e));
+            }
+        }
+        clock::advance(dt);
+        if clock::now_ns() > budget {
+            l.timed_out = true;
+            return Poll::Fails;
+        }
+        Poll::No
+    })));
+    let published: Rc<RefCell<Vec<(usize, String, Option<usize>)>>> = Rc::new(RefCell::new(vec![]));
+    let pubs = published.clone();
+    let st3 = state.clone();
+    let r = guarded(|| {
+        tracer.verif_run_with::<SimSocket, _>(cfg.src, |round: &Round<'_>| {
+            let id = round.probes.iter().find_map(|p| match p {
+                ProbeStatus::Awaited(a) => Some(a.round.0),
+                ProbeStatus::Complete(c) => Some(c.round.0),
+                ProbeStatus::Failed(f) => Some(f.round.0),
+                _ => None,
+            });
+            pubs.borrow_mut().push((st3.borrow().iters.len(), show_round(round), id));
+        })
+    });
+    simsock::set_readable_hook(None);
+    let tail_ops = simsock::take_ops();
+    let l = state.borrow();
+    let pubs = published.borrow();
+    // connect: the leading socket constructors up to the receive socket
+    let first_ops: Vec<String> = l.iters.first().map_or_else(|| tail_ops.clone(), |x| x.0.clone());
+    let ncon = first_ops.iter().position(|o| o.starts_with("new:recv")).map_or(0, |i| i + 1);
+    run.op(ctx.clone(), format!("ok {}", show_ops(&first_ops[..ncon])));
+    let inj_tok = |a: &Option<(&'static str, Inject)>| a.map_or("-".to_string(), |(c, e)| format!("{c}:{}", io_kind_name(e)));
+    for (i, (ops, armed, dt)) in l.iters.iter().enumerate() {
+        let ops = if i == 0 { &ops[ncon..] } else { &ops[..] };
+        let pub_s = pubs.iter().find(|p| p.0 == i + 1).map_or("none".to_string(), |p| p.1.clone());
+        run.op(format!("stack itq {} {dt} n x -", inj_tok(armed)), format!("calls={} pub={pub_s}", show_calls(ops)));
+        run.count("op:itq");
+    }
+    let ctxs = format!("{ctx} closed loop dts={dts:?} fault={:?}", fault.map(|f| (f.0, f.1, io_kind_name(f.2))));
+    let mut failed: Option<Error> = None;
+    match r {
+        Err(loc) => {
+            run.fail("c09-stack-panic", format!("{ctxs} ({loc})"));
+        }
+        Ok(Ok(())) => {
+            // exactly n rounds, numbered in order
+            let ids: Vec<Option<usize>> = pubs.iter().map(|p| p.2).collect();
+            let in_order = ids.iter().enumerate().all(|(k, id)| id.map_or(true, |x| x == k));
+            if pubs.len() as u64 != n_rounds || !in_order {
+                run.fail("c09-stack-rounds", format!("{ctxs}: Ok(()) after {} rounds {ids:?}, limit {n_rounds}", pubs.len()));
+            }
+            if tracer.snapshot().round_count(trippy_core::FlowId(0)) as u64 != n_rounds {
+                run.fail("c09-stack-rounds", format!("{ctxs}: snapshot round_count {} after a run limited to {n_rounds}", tracer.snapshot().round_count(trippy_core::FlowId(0))));
+            }
+            run.count("stack:closed-ok");
+        }
+        Ok(Err(e)) => {
+            if l.timed_out {
+                run.fail("c09-stack-not-terminated", format!("{ctxs}: {} rounds published when the time budget for {n_rounds} rounds of at most {} ns ran out", pubs.len(), cfg.max_round));
+            } else if fault.is_none() {
+                run.fail("c09-stack-rounds", format!("{ctxs}: the run failed [{e}] without a socket error"));
+            } else {
+                // the partial iteration in which the send failed
+                let armed = l.armed;
+                run.op(format!("stack itq {} 0 n x -", inj_tok(&armed)), format!("err {}", chan_err_kind(&e)));
+                run.count("stack:closed-err");
+            }
+            failed = Some(e);
+        }
+    }
+    if !(l.timed_out) {
+        let et = error_token(&tracer, failed.as_ref(), run, &ctxs);
+        let dump = match guarded(|| crate::agg::show_full(&tracer.snapshot())) {
+            Ok(s) => format!("{s} error={et}"),
+            Err(loc) => {
+                run.fail("c09-stack-panic", format!("{ctxs} dump ({loc})"));
+                "panic".into()
+            }
+        };
+        run.op("stack dump".into(), dump);
+    }
+    drop(pubs);
+    drop(l);
+    clock::disable();
+    simsock::reset();
+    crate::strategy::set_addr_num(false);
+}
+
 // ------------------------------------------------------------------------------------------------
 // generators
 // ------------------------------------------------------------------------------------------------
@@ -695,6 +849,26 @@ pub fn run(rng: &mut Rng, thorough: bool, _corpus: &[String]) -> Run {
                 let loss = *rng.pick(&[0u64, 10, 40]);
                 let mut plan = plan_path(path_len, loss, (k % 3) as u8);
                 open_loop(&mut run, &cfg, rng.below(1000) * 1000, if thorough { 400 } else { 160 }, &mut plan, rng);
+            }
+        }
+    }
+    // closed loop: silent network, the run has to end by itself after max_rounds rounds
+    for proto in ['i', 'u', 't'] {
+        for v6 in [false, true] {
+            for k in 0..if thorough { 8 } else { 2 } {
+                let mut cfg = gen_cfg(rng, proto, v6);
+                cfg.tcp_timeout = *rng.pick(&[20 * MS, 500 * MS]);
+                let dts: Vec<u64> = match k % 4 {
+                    0 => vec![10 * MS],
+                    1 => vec![MS, 7 * MS, 0, 30 * MS],
+                    2 => vec![cfg.max_round + 1],
+                    _ => vec![cfg.max_round / 3, 1, cfg.grace],
+                };
+                let fault = if k % 2 == 1 {
+                    let call = if proto == 't' { "conn" } else { "send" };
+                    Some((1 + rng.below(12) as usize, call, *rng.pick(&[Inject::Errno(libc::EACCES), Inject::Errno(libc::ENETUNREACH), Inject::Errno(libc::EADDRINUSE)])))
+                } else { None };
+                closed_loop(&mut run, &cfg, rng.below(1000) * 1000, &dts, fault);
             }
         }
     }
